@@ -393,8 +393,9 @@ class ConfigParser(object):
   """Performs initial stage (tokenizing) of generating a potential model
   suitable for tabulation functions."""
 
-  _signature_re = re.compile(r"^([a-zA-Z]\w*?)\((.*)\)$")
-  _parameter_name_re = re.compile(r"^[a-zA-Z_]\w*$")
+  # (re.ASCII: the expression library only knows names made of ASCII letters, digits and '_')
+  _signature_re = re.compile(r"^([a-zA-Z]\w*?)\((.*)\)$", re.ASCII)
+  _parameter_name_re = re.compile(r"^[a-zA-Z_]\w*$", re.ASCII)
 
   # Map of sections relevant to ConfigParser
   # Keys are section keys as the appear to the _config_parser (_RawConfigParser)
